@@ -26,6 +26,16 @@ func minint(a, b int) int {
 	return b
 }
 
+// floorDiv returns ⌊a/b⌋ for b > 0. Go's integer division truncates
+// toward zero, which differs for negative a.
+func floorDiv(a, b int) int {
+	q := a / b
+	if a%b != 0 && a < 0 {
+		q--
+	}
+	return q
+}
+
 func sumint(xs []int) int {
 	sum := 0
 	for _, x := range xs {
